@@ -152,3 +152,15 @@ Example C10_repetition_nonvacuous :
   nonempty_branches t = true /\ simple_reps t = true /\ lits_nosep t = true /\ depth_closed_variant t = false /\
   depth_variance t = Ok (Var (Bounded (BBoth 3 1))).
 Proof. cbv zeta. repeat split; vm_compute; reflexivity. Qed.
+
+(* for globs that build and have no repetition nothing is assumed about adjacency: the rule checker guarantees it for every
+   expansion (C06_built_globs_without_repetitions_have_no_adjacent_boundaries) *)
+Theorem C10_built_globs_without_repetitions_sound_unconditionally : forall (orbit : char -> list char), (forall c d, In d (orbit c) -> d <> SEP) ->
+  forall e t r v p,
+  build e = BuildOk t r -> rep_free t = true ->
+  depth_variance t = Ok v -> depth_closed_variant t = false ->
+  Lang orbit t p -> canonical p = true -> 1 <= ncomp p ->
+  (forall x, Expands t x -> FlatMatch orbit true true x p -> starts_sep p = (match x with a :: _ => leaf_is_rooting a | [] => false end)) ->
+  in_variance (ncomp p) v.
+Proof. exact built_rep_free_depth_sound. Qed.
+Print Assumptions C10_built_globs_without_repetitions_sound_unconditionally.
